@@ -52,6 +52,8 @@ def cases(tier, seed):
         yield {"kind": "resolve_history", "idx": i, "seed": seed}
     for i in range(256):  # which options the configuration has x which options are given explicitly
         yield {"kind": "override", "idx": i, "seed": seed, "cfg_mask": i >> 4, "arg_mask": i & 15}
+        if i & 15:  # ... and the same with explicit values that switch the option off
+            yield {"kind": "override", "idx": i, "seed": seed, "cfg_mask": i >> 4, "arg_mask": i & 15, "off": True}
     dumps = [c for c in combos if c["form"] in ("cluster", "repo_json")]
     for i, c in enumerate(dumps if tier == "thorough" else dumps[:40]):
         yield dict(c, kind="dump", idx=i)
@@ -380,6 +382,9 @@ def run_override(case, out, fail, sc):
                 "memory_cache_mb": 1}
     full_arg = {"path": os.path.join(B, "data"), "metadata_path": os.path.join(B, "meta"), "read_only": False,
                 "memory_cache_mb": 4 * env.KIB}
+    if case.get("off"):
+        # explicit values that switch an option of the configuration off: metadata next to the data, no cache
+        full_arg["memory_cache_mb"] = 0
     names = [("path", "path"), ("metadata_path", "metadata_path"), ("readonly", "read_only"), ("memory_cache_mb", "memory_cache_mb")]
     cfg = {"type": "filesystem"}
     chosen = {}
@@ -390,10 +395,14 @@ def run_override(case, out, fail, sc):
             chosen[ak] = full_arg[ak]
     if "path" not in cfg and "path" not in chosen:
         chosen["path"] = full_arg["path"]  # never fall back to the home directory
+    if case.get("off") and "metadata_path" in chosen:
+        chosen["metadata_path"] = chosen.get("path", cfg.get("path"))
     st = FilesystemStorageBackend(config=dict(cfg), **chosen)
     data_dir = chosen.get("path", cfg.get("path"))
     meta_dir = chosen.get("metadata_path", cfg.get("metadata_path", data_dir))
     cache = "4KiB" if "memory_cache_mb" in chosen else ("1MiB" if "memory_cache_mb" in cfg else None)
+    if case.get("off") and "memory_cache_mb" in chosen:
+        cache = None
     eff = {"stype": "filesystem", "meta": meta_dir != data_dir, "cache": cache,
            "ro": chosen.get("read_only", cfg.get("readonly"))}
     ref = FilesystemStorageBackend(path=sc.path("R", "data"), metadata_path=sc.path("R", "meta") if eff["meta"] else None,
@@ -404,6 +413,19 @@ def run_override(case, out, fail, sc):
     for k, (w, g) in diff_vec(want, got).items():
         fail("an explicit constructor argument does not override the configuration: " + SIG.get(k, k),
              "config %s explicit %s: behaviour %s is %s expected %s" % (cfg, chosen, k, g, w))
+    # the dump of an environment holding this backend rebuilds a backend that behaves the same
+    e1 = m.Environment(name="e", base_dir=sc.path("base"), repos=[m.ConfigurationRepository(
+        name="r", clusters={"cl": m.FunctionCluster(name="cl", storage=st)})])
+    e2 = m.Environment(json.loads(json.dumps(e1.to_dict())))
+    st2 = e2.get_cluster("cl").storage
+    # (the rebuilt backend works on the same directories, which now hold slot 0: observe slot 1 on both)
+    want2 = behaviour(st, [data_dir, meta_dir if meta_dir != data_dir else data_dir + "-no-separate-metadata"], 1, audit)
+    got2 = behaviour(st2, [data_dir, meta_dir if meta_dir != data_dir else data_dir + "-no-separate-metadata"], 2, audit)
+    out["obs"]["override_dump_vectors_compared"] += 1
+    for k, (w, g) in diff_vec(want2, got2).items():
+        fail("the dump of an environment does not rebuild an equivalent backend: " + SIG.get(k, k),
+             "config %s explicit %s: behaviour %s of the rebuilt backend is %s, of the original %s; dump %s"
+             % (cfg, chosen, k, g, w, json.dumps(st.to_dict())))
     # cluster-level: explicit storage / runner objects override the configuration
     from twosigma.memento.runner_null import NullRunnerBackend
 
@@ -440,5 +462,5 @@ def run_case(case):
 
 def conclude(agg):
     return core.first(core.need(agg, "vectors_compared", 150), core.need(agg, "dump_vectors_compared", 30),
-                      core.need(agg, "resolutions_checked", 100), core.need(agg, "resolutions_in_histories", 100), core.need(agg, "override_vectors_compared", 200),
+                      core.need(agg, "resolutions_checked", 100), core.need(agg, "resolutions_in_histories", 100), core.need(agg, "override_vectors_compared", 200), core.need(agg, "override_dump_vectors_compared", 200),
                       core.need(agg, "runner_behaviours_checked", 100)), {"exhaustive": True}
